@@ -171,7 +171,9 @@ def clean_concat(arrays, dim):
         for array in arrays]
     arrays = xr.concat(arrays, dim)
     arrays.attrs = attrs
-    return arrays.transpose(*np.roll(arrays.dims, -1))
+    # (the names stay plain str: np.roll would hand back numpy strings, which
+    # end up in dims and attrs and cannot be read back from a saved file)
+    return arrays.transpose(*arrays.dims[1:], arrays.dims[0])
 
 
 def update_metadata(a, medium_index=None, illum_wavelen=None,
